@@ -3,7 +3,7 @@
 """
 import copy
 import numpy as np
-from pmv import common, gen, observe
+from pmv import common, gen, observe, corpus
 from pmv.oracles import report
 
 ID   = 'C07'
@@ -23,11 +23,23 @@ ASSUMPTIONS = [ 'numpy.linalg.solve/cond trusted'
 
 def plan (tier, seed):
     n = 240 if tier == 'quick' else 4000
-    return [dict (i = i, seed = seed) for i in range (n)]
+    return [dict (i = i, seed = seed) for i in range (n)] + corpus.plan_cases (seed, tier, 1, 3)
 # end def plan
 
 def make (spec0):
     rng = np.random.default_rng ([spec0 ['seed'], 7, spec0 ['i']])
+    if 'corpus' in spec0:
+        spec = corpus.make (spec0, 7)
+        rng  = corpus.rng_of (spec0, 7)
+        # a second source half way along the pulse list
+        m0 = gen.build (spec)
+        N, p0 = len (m0.pulses), m0.sources [0].idx
+        if N > 2:
+            spec ['src'] = spec ['src'] [:1] + [dict (p = [(p0 + N // 2) % N + 1], v = gen.rand_voltage (rng))]
+        mag = 10 ** rng.uniform (-6, 6) if rng.random () < 0.5 else rng.uniform (0.5, 2)
+        ph  = rng.choice ([0, np.pi / 2, np.pi, rng.uniform (-np.pi, np.pi)])
+        spec ['factor'] = [float (mag * np.cos (ph)), float (mag * np.sin (ph))]
+        return spec
     env = rng.choice (['free', 'free', 'ideal', 'ideal', 'real'])
     if env == 'free':
         spec = gen.fam_free (rng, equal_junction = bool (rng.random () < 0.5))
